@@ -35,7 +35,7 @@ def loop(invariant=(), decreases=(), index="_i", types=None, modifies=None):
 class Contract:
     def __init__(self, name, params=None, requires=(), ensures=(), raises=(), returns=None, loops=None, modifies=None,
                  ensures_raise=(), props=(), verify_only=False, site_requires=None, status="proved", cases=None, note="", reify=None,
-                 max_paths=400, target=None, elements_are_keys=False, ghost_entry=None):
+                 max_paths=400, target=None, elements_are_keys=False, ghost_entry=None, heavy=False):
         self.name = name
         self.params = params or {}
         self.requires = [requires] if isinstance(requires, str) else list(requires)
@@ -59,6 +59,7 @@ class Contract:
         self.reify = reify
         self.max_paths = max_paths
         self.elements_are_keys = elements_are_keys
+        self.heavy = heavy  # verified in the thorough tier only (minutes of solver time)
         self.ghost_entry = ghost_entry or {}  # ghost name -> expression evaluated over the pre-state
         self.target = target or name  # the function the contract is about (several contracts may share one)
         self.module_file = None
